@@ -221,8 +221,9 @@ ALPHA_C19 = [
     ",", " ", "[]", "éü€日𝔘", ":*?@.-_/;#{}",
 ]
 ALPHA_BENIGN = ["abcdefghijklmnopqrstuvwxyz0123456789", "@.-_"]
-WHOLE_C06 = ["", 'a"b', "a\\", "\\Seen", 'x", "y', 'a" :is "b', "] [", "a,b", 'say "hi"', "\\\\", 'end\\', "a\nb", "text:", "#c", "a;b", "{x}", "q'"]
-WHOLE_C19 = ["", "a,b", "a, b", "[x]", "x]", "[", "a b", "é,ü", ",", "a,", ",a", "list-id", "a,b,c"]
+NEAR_KEYWORDS = ["notes", "not", "nothing-special", "notification-id", "sizeable", "exists-x", "bodyguard", "truefalse", "x-envelope", "Not", "NOTE"]
+WHOLE_C06 = NEAR_KEYWORDS + ["", 'a"b', "a\\", "\\Seen", 'x", "y', 'a" :is "b', "] [", "a,b", 'say "hi"', "\\\\", 'end\\', "a\nb", "text:", "#c", "a;b", "{x}", "q'"]
+WHOLE_C19 = NEAR_KEYWORDS + ["", "a,b", "a, b", "[x]", "x]", "[", "a b", "é,ü", ",", "a,", ",a", "list-id", "a,b,c"]
 
 
 class DefGen:
